@@ -52,7 +52,18 @@ func genTextLine(rng *rand.Rand, style int) string {
 		b.WriteString(pick(rng, c13Times) + "  ")
 	}
 	k := 1 + rng.Intn(3)
+	// a very long line (a redrawn progress bar, a dumped tensor): longer than any reader buffer
+	padAt := -1
+	if rng.Intn(12) == 0 {
+		padAt = rng.Intn(k + 1)
+	}
+	pad := func() string {
+		return " " + strings.Repeat(".", 3000+rng.Intn(6000)) + pick(rng, []string{" ", "", "|"})
+	}
 	for i := 0; i < k; i++ {
+		if i == padAt {
+			b.WriteString(pad())
+		}
 		nm, v := pick(rng, c13Names), c13Val(rng)
 		switch style {
 		case 2:
@@ -65,6 +76,9 @@ func genTextLine(rng *rand.Rand, style int) string {
 		if i < k-1 {
 			b.WriteString(pick(rng, []string{" ", ", ", ";", " noise "}))
 		}
+	}
+	if padAt == k {
+		b.WriteString(pad())
 	}
 	return b.String()
 }
@@ -204,6 +218,9 @@ func init() {
 							obj[n] = pick(rng, []interface{}{0.5, true, nil})
 						}
 					}
+				}
+				if rng.Intn(12) == 0 {
+					obj[pick(rng, []string{"aaa_pad", "zzz_pad"})] = strings.Repeat("x", 3000+rng.Intn(70000))
 				}
 				bs, _ := json.Marshal(obj)
 				line := string(bs)
